@@ -416,6 +416,8 @@ def goFuncSig : Nat → Option GoSig
   | 22 => some { params := [ifaceT, ifaceT] }
   | 23 => some { takesCtx := true, params := [b!"string", b!"string", b!"string"] }
   | 24 => some { takesCtx := true, params := [b!"string", b!"string", b!"string", b!"string", b!"string"] }
+  | 25 => some { takesCtx := true, params := [b!"string"], variadic := true }
+  | 26 => some { takesCtx := true, params := [b!"string", b!"int"], variadic := true }
   | _ => none
 
 /-- what a call yields: the reflect value and, for a `*Value` result, its safe flag
@@ -450,6 +452,8 @@ def goFuncRun (id : Nat) (autoescape : Bool) (args : List V) : GoOut :=
   | 22, [_, c] => .ok (c.v, none)
   | 23, [a, c, d] => .ok (.str (a.v.toS ++ b!"-" ++ c.v.toS ++ b!"-" ++ d.v.toS), none)
   | 24, [a, c, d, e, f] => .ok (.str (a.v.toS ++ c.v.toS ++ d.v.toS ++ e.v.toS ++ f.v.toS), none)
+  | 25, xs => .ok (.str (b!"v:" ++ Bytes.join b!"," (xs.map (·.v.toS))), none)
+  | 26, a :: xs => .ok (.str (a.v.toS ++ fmtInt ((intArgs xs).foldl (· + ·) 0)), none)
   | _, _ => .error "unreachable: arity was checked"
 
 /-- methods of the harness's struct type: (name, declared on the pointer type, signature) -/
